@@ -44,9 +44,13 @@ ObsOk(x, y) ==
   \/ x.cls = "b" /\ ~x.armed /\ x.st = "guard"     \* documented refusal while the tokenizer function is missing
   \/ x.st = y.st /\ x.d = y.d                      \* otherwise: the same answer, bit for bit
 
-TwinsAgree(o) ==
-  \A x \in o, y \in o :
-     (x.key = y.key /\ x.root = y.h /\ x.h # y.h) => (x.cls = y.cls /\ ObsOk(x, y))
+PairOk(x, y) == (x.key = y.key /\ x.root = y.h /\ x.h # y.h) => (x.cls = y.cls /\ ObsOk(x, y))
+
+TwinsAgree(o) == \A x \in o, y \in o : PairOk(x, y)
+
+\* incremental form (used by the trace specification, one evaluation per recorded answer):
+\*   TwinsAgree(o \cup {x})  <=>  TwinsAgree(o) /\ Extends(o, x)      (checked by TLC as InvIncremental)
+Extends(o, x) == PairOk(x, x) /\ \A y \in o : PairOk(x, y) /\ PairOk(y, x)
 
 \* the original always answers (it is never disarmed, never refuses)
 RootsOk(o) == \A y \in o : y.h = y.root => (y.st = "ok" /\ y.armed /\ ~y.exempt)
@@ -179,5 +183,6 @@ InvTwins    == TwinsAgree(obs) /\ RootsOk(obs)
 InvDecodes  == ~failed                                             \* every document can be read back
 InvSameVal  == \A k \in 1..H : armed[k] => val[k] = val[1]          \* the restored value is the original
 InvVerdict  == \A x \in obs, y \in obs : (x.key = "validate" /\ y.key = "validate") => x.d = y.d
+InvIncremental == TwinsAgree(obs) <=> (\A x \in obs : Extends(obs \ {x}, x))
 InvGuard    == \A x \in obs : (x.st = "guard") => (~x.armed /\ x.cls = "b" /\ x.h > 0)
 =============================================================================
